@@ -338,8 +338,8 @@ func rulesC02(w *World, r *Report) {
 
 	// R2 container headers
 	allowed := map[string]ISet{
-		"(*Encoder).writeList":   single(0x58).Union(single(0x56)).Union(mkSet(0x70, 0x77)).Union(mkSet(0x78, 0x7f)).Union(single(0x55)).Union(single(0x57)),
-		"(*Encoder).writeMap":    single('N').Union(single('M')).Union(single('H')).Union(single('Z')),
+		"(*Encoder).writeList": single(0x58).Union(single(0x56)).Union(mkSet(0x70, 0x77)).Union(mkSet(0x78, 0x7f)).Union(single(0x55)).Union(single(0x57)),
+		"(*Encoder).writeMap":  single('N').Union(single('M')).Union(single('H')).Union(single('Z')),
 		// the order of these octets within the production is C02.R3's business
 		"(*Encoder).writeObject": single('O').Union(mkSet(0x60, 0x6f)).Union(single('C')),
 		"(*Encoder).writeRef":    single(0x51),
